@@ -511,6 +511,15 @@ func (m *material) hostile(t *vk.T, r *rand.Rand, maxDepth int) ([]byte, string)
 	if mode != 0 {
 		if base, err := pdfgen.Write(doc, opts); err == nil {
 			ov := pdfgen.RandomOverrides(r, doc, opts, base.Layout)
+			if r.IntN(6) == 0 {
+				// the head of the free list (object 0) / a free entry: unknown type, in use, compressed, missing
+				if ov.XRefEntries == nil {
+					ov.XRefEntries = map[pdfgen.XRefKey]pdfgen.XRefEntryOverride{}
+				}
+				e := []pdfgen.XRefEntryOverride{{Type: pdfgen.Force(3)}, {Type: pdfgen.Force(255)}, {Type: pdfgen.Force(1)}, {Type: pdfgen.Force(2), F2: pdfgen.Force(1)},
+					{Drop: true}, {F2: pdfgen.Force(0), F3: pdfgen.Force(0)}, {F2: pdfgen.Force(1 << 40)}, {Type: pdfgen.Force(32)}}[r.IntN(8)]
+				ov.XRefEntries[pdfgen.XRefKey{Rev: -1, Num: 0}] = e
+			}
 			opts.Overrides = ov
 			if desc != "" {
 				desc += "; "
